@@ -82,7 +82,7 @@ def run_kani(harnesses, target_dir, timeout_s, jobs, log_path, extra=None, crate
 
 
 # per-harness time limits above the defaults (measured: the calendar-layer harnesses of C15 need 60..1200 s each)
-HARNESS_TIMEOUT = {("C15", "quick"): 1800, ("C15", "thorough"): 3600}
+HARNESS_TIMEOUT = {("C15", "quick"): 1500, ("C15", "thorough"): 3600}
 
 UNWIND_PAT = re.compile(r"unwinding assertion|recursion unwinding", re.I)
 
@@ -183,7 +183,7 @@ def run_playback(prop, rpath, work_ready=None):
     return reproduced, f"native playback {'reproduces' if reproduced else 'does NOT reproduce'} (dev+release); logs {results[0][2]}"
 
 
-def run_property(prop, tier, out, timeout_q=300, timeout_t=2400, jobs=16):
+def run_property(prop, tier, out, timeout_q=900, timeout_t=3600, jobs=16):
     """Run all K harnesses for a property and fold the results into `out` (Outcome)."""
     hs = list_harnesses(prop)
     if not hs:
